@@ -147,10 +147,25 @@ def numeric_sites(case, spec, N, tones=None):
 
 
 def tone_zero_free(case, spec):
-    """guard of F-C16-subhalf-frequency-tone-zero: no sounded frequency lies in (0, 0.5)"""
-    tones = []
-    numeric_sites(case, spec, Fr, tones)
-    return all(t >= 1 for t in tones)
+    """guard of F-C16-subhalf-frequency-tone-zero, on the inputs alone (half_guard_static of
+    coq/Device/BuzzerSpec.v, theorem C16_no_zero_tone_sequences_partial): default_frequency and every frequency
+    argument are <= 0 or >= 0.5; a sweep has both ends <= 0 or both >= 0.5"""
+    half = Fr(1, 2)
+    aud = lambda q: q <= 0 or q >= half
+    d0 = case["default"]
+    if not aud(Fr(f32(440.0 if d0 is None else d0))):
+        return False
+    for c in case["calls"]:
+        k = c["k"]
+        if k in ("play", "beep") and c.get("f") is not None and not aud(qfreq(c["f"])):
+            return False
+        if k == "sweep":
+            s, e = qfreq(c["s"]), qfreq(c["e"])
+            if not ((s <= 0 and e <= 0) or (s >= half and e >= half)):
+                return False
+        if k == "melody" and not all(aud(fq) for fq, _ in spec[c["name"].lower()][1]):
+            return False
+    return True
 
 
 # ----------------------------------------------------------------------------- cases -> wire
@@ -1128,7 +1143,7 @@ def run(ctx: C.Ctx):
                          "cases_clean": n_ok, "cases_rerun_under_sanitizers": n_san, "outside_guard_not_generated": n_out_guard, "feedback_cases_not_exact_dropped": n_feedback_dropped, "tone_zero_cases_compared_not_judged": n_tone_zero,
                          "float32_vs_exact_dropped": n_inexact, "melody_name_candidates": n_names, "melody_names_accepted": n_acc},
         "exhaustive": False,
-        "guard": "the tone(pin, f >= 1) clause is judged only on cases without a sounded frequency in (0, 0.5) - arguments, default_frequency, interpolated sweep frequencies (F-C16-subhalf-frequency-tone-zero: rounded to tone(pin, 0); such cases are still generated and compared with the model); durations/on_ms/off_ms >= 0 (negative: F-C16-negative-runtime-duration, float->unsigned UB); sweep tone count / first / last judged only for steps >= 1 (F-C16-sweep-steps-clamped; the calls are still generated and compared with the model); no beep with trunc(times) < 1 while a tone is left running (F-C16-beep-zero-keeps-tone); integer outputs on which float32 and exact-rational arithmetic differ are not generated (count in distribution.float32_vs_exact_dropped)",
+        "guard": "the tone(pin, f >= 1) clause is judged only on cases without a sounded frequency in (0, 0.5) - arguments, default_frequency, interpolated sweep frequencies (F-C16-subhalf-frequency-tone-zero: rounded to tone(pin, 0); the guard is half_guard_static of the Coq development, evaluated on the inputs: default and arguments <= 0 or >= 0.5, sweeps with both ends <= 0 or both >= 0.5; cases outside it are still generated and compared with the model); durations/on_ms/off_ms >= 0 (negative: F-C16-negative-runtime-duration, float->unsigned UB); sweep tone count / first / last judged only for steps >= 1 (F-C16-sweep-steps-clamped; the calls are still generated and compared with the model); no beep with trunc(times) < 1 while a tone is left running (F-C16-beep-zero-keeps-tone); integer outputs on which float32 and exact-rational arithmetic differ are not generated (count in distribution.float32_vs_exact_dropped)",
         "unmodelled": ["C++ float rounding (modelled as exact rationals; measured by the float32 filter and the correspondence)",
                        "unsigned int / int / unsigned long overflow (tone frequency >= 2^16 on AVR, counts >= 2^15)",
                        "static_cast<unsigned long> of a negative value (wrap-around for int expressions, undefined for float expressions; [neg] oracle in the model)",
